@@ -219,9 +219,18 @@ def gen_cases(rng, tier):
         out.append(case("secp-sigv-valid-c", "sig_verify", "secp", sg, sec1(Q, True), msg, False))
         out.append(case("secp-sigv-valid-u", "sig_verify", "secp", sg, sec1(Q, False), msg, False))
         out.append(case("secp-sigv-preimage", "sig_verify", "secp", sg, sec1(Q, True), msg + fl.to_bytes(4, "little"), True))
+        # the same (signature, key, bytes) under the other message mode: signed data differs, must not verify
+        out.append(case("secp-sigv-mode-switch", "sig_verify", "secp", sg, sec1(Q, True), msg + fl.to_bytes(4, "little"), False))
+        out.append(case("secp-sigv-mode-switch", "sig_verify", "secp", sg, sec1(Q, True), msg, True))
         out.append(case("secp-sigv-flag-changed", "sig_verify", "secp", sg[:-1] + bytes([fl ^ 0x80]), sec1(Q, True), msg, False))
         out.append(case("secp-sigv-msg-changed", "sig_verify", "secp", sg, sec1(Q, True), msg + b"\0", False))
         out.append(case("secp-sigv-high-s", "sig_verify", "secp", ref_der(r, N - s) + bytes([fl]), sec1(Q, True), msg, False))
+        # crafted tuple with u1 G + u2 Q = infinity: r = -z/d (any s) - must be an error, never "OK"
+        r_inf = (-z * pow(d, -1, N)) % N
+        if r_inf:
+            for s_inf in (1, N - 1, rng.randrange(1, N)):
+                out.append(case("secp-sigv-sum-infinity", "sig_verify", "secp", ref_der(r_inf, s_inf) + bytes([fl]),
+                                sec1(Q, rng.random() < .5), msg, False))
         b = bytearray(sg)
         j = rng.randrange(len(b) - 1)
         b[j] ^= 1 << rng.randrange(8)
@@ -285,8 +294,14 @@ def gen_cases(rng, tier):
             if s2:
                 sg = ref_der(r2, s2) + bytes([fl])
                 out.append(case(cname + "-sigv-valid", "sig_verify", cname, sg, sec1(Q, rng.random() < .5), msg, False))
+                out.append(case(cname + "-sigv-mode-switch", "sig_verify", cname, sg, sec1(Q, True), msg + fl.to_bytes(4, "little"), True))
+                out.append(case(cname + "-sigv-mode-switch", "sig_verify", cname, sg, sec1(Q, True), msg + fl.to_bytes(4, "little"), False))
                 out.append(case(cname + "-sigv-wrong-flag", "sig_verify", cname, sg[:-1] + bytes([fl ^ 2]), sec1(Q, True), msg, False))
                 out.append(case(cname + "-sigv-wrong-key", "sig_verify", cname, sg, sec1(rng.choice(pts), True), msg, False))
+                r_inf = (-zz * pow(d, -1, n)) % n
+                if r_inf:
+                    out.append(case(cname + "-sigv-sum-infinity", "sig_verify", cname, ref_der(r_inf, rng.randrange(1, n)) + bytes([fl]),
+                                    sec1(Q, True), msg, False))
         # SEC1 acceptance over ALL x on the small field (both prefixes), plus wrong shapes
         for x in range(cv["p"] + 2):
             for pre in (2, 3):
